@@ -20,7 +20,8 @@ RULE = ("a case = (type hint, input, channel). Type hints: every hint of the gra
         "of one Union node (any depth) permuted — all permutations, capped at 6 (quick) / 30 (thorough) variants per case. "
         "Ext cases (Model/C02Ext.v): Unions of 2-3 members of which at least one is a registered/restricted type (PositiveFloat, "
         "PositiveInt, NonNegativeInt, ClosedUnitInterval, decimal.Decimal, the restricted strings Email and NotEmptyStr, a str-mixin "
-        "Enum; their adapt_typehints behaviour per value is recorded "
+        "Enum, a user-registered class whose deserializer raises RuntimeError / AttributeError / IndexError / LookupError / "
+        "ValueError depending on the value; their adapt_typehints behaviour per value is recorded "
         "from the real run) with ints beyond the float range, non-numeric strings, numeric text, bools, lists ..., every member "
         "alone and every permutation; plain scalar / Optional / Union / Literal hints with every conforming declared default "
         "(0, 1, 2, 0.0, 1.0, 2.0, False, True, 'a', '1', 'null', 'true') x every scalar value incl. equal-but-other-kind ones "
@@ -511,7 +512,7 @@ def group_cases(rng, tier):
 # -----------------------------------------------------------------------------------------------------------------
 # cases with registered / restricted Union members (opaque: behaviour observed) and with declared defaults
 # -----------------------------------------------------------------------------------------------------------------
-OPQ = ["PositiveFloat", "PositiveInt", "ClosedUnitInterval", "NonNegativeInt", "Decimal", "Email", "NotEmptyStr", "StrColor"]
+OPQ = ["PositiveFloat", "PositiveInt", "ClosedUnitInterval", "NonNegativeInt", "Decimal", "Email", "NotEmptyStr", "StrColor", "Picky"]
 X_MODELLED = [["int"], ["str"], ["bool"], ["float"], ["none"], ["list", ["int"]], ["lit", [["int", "1"], ["int", "2"]]],
               ["dict", "str", ["int"]]]
 BIG = 10 ** 400
@@ -519,7 +520,7 @@ X_VALUES = [["int", "1"], ["int", "-1"], ["int", "0"], ["int", "2"], ["float", "
             ["int", str(BIG)], ["int", str(-BIG)], ["str", "abc"], ["str", "0.25"], ["str", "1e3"], ["str", "inf"],
             ["str", "2"], ["str", "-3"], ["str", "null"], ["list", [["int", "1"], ["int", "2"]]],
             ["list", [["str", "a"]]], ["bool", True], ["bool", False], ["str", "[1, 2]"], ["str", "true"], ["str", ""],
-            ["str", "a@b.c"], ["str", "RED"], ["str", "red"], ["str", "[]"], ["str", "{}"], ["str", '{"a": 1}'], ["str", "~"],
+            ["str", "a@b.c"], ["str", "px"], ["list", []], ["str", "RED"], ["str", "red"], ["str", "[]"], ["str", "{}"], ["str", '{"a": 1}'], ["str", "~"],
             ["dict", [[["str", "a"], ["int", "1"]]]], ["none"]]
 
 
@@ -575,7 +576,15 @@ def x_cases(rng, tier):
             if any(m[0] == "opq" for m in combo):
                 combos.append(list(combo))
     rng.shuffle(combos)
-    for combo in combos[: (45 if quick else 200)]:
+    chosen = []
+    for n in OPQ:                       # every registered member in at least four Unions, the rest at random
+        chosen += [c for c in combos if ["opq", n] in c][:4]
+    for c in combos:
+        if len(chosen) >= (48 if quick else 200):
+            break
+        if c not in chosen:
+            chosen.append(c)
+    for combo in chosen:
         ms = list(combo)
         rng.shuffle(ms)
         vals = X_VALUES if not quick else rng.sample(X_VALUES, 9) + [["int", str(BIG)], ["str", "abc"]]
@@ -774,6 +783,9 @@ def observe(cases):
                 strings_of(c["val"], strs)
                 n = len(c["ms"])
                 o = xo["obs"]
+                if any(y[0] == "skip" for y in o):
+                    out[i] = {"skip": next(y[1] for y in o if y[0] == "skip"), "obs": ["skip"]}
+                    continue
                 rec, seen_rec = [], set()
                 for name, before, after in xo["rec"]:
                     kk = json.dumps([name, before])
@@ -787,6 +799,8 @@ def observe(cases):
                 continue
             if c["kind"] == "group":
                 out[i] = {"obs": res["groups"][g]}
+                if res["groups"][g][0] == "skip":
+                    out[i] = {"skip": res["groups"][g][1], "obs": ["skip"]}
                 g += 1
                 continue
             nq = 1 + len(c["perms"]) + len(c["parts"] or [])
@@ -794,8 +808,17 @@ def observe(cases):
             k += nq
             strs = set()
             strings_of(c["val"], strs)
-            out[i] = {"obs": obs[0], "perms": [o[0] == "ok" for o in obs[1:1 + len(c["perms"])]],
-                      "parts": [o[0] == "ok" for o in obs[1 + len(c["perms"]):]],
+            if obs[0][0] == "skip":
+                out[i] = {"skip": obs[0][1], "obs": ["skip"]}
+                continue
+            po = obs[1:1 + len(c["perms"])]
+            ro = obs[1 + len(c["perms"]):]
+            # a side query the harness could not build is dropped (the item observations only as a whole: they are positional)
+            perms = [[p, o[0] == "ok"] for p, o in zip(c["perms"], po) if o[0] != "skip"]
+            parts = None
+            if c["parts"] is not None and not any(o[0] == "skip" for o in ro):
+                parts = [[pt, pv, o[0] == "ok"] for (pt, pv), o in zip(c["parts"], ro)]
+            out[i] = {"obs": obs[0], "perms": perms, "parts": parts,
                       "oracle": oracle_closure(strs, res["oracle"])}
     return out
 
@@ -895,7 +918,12 @@ def g_member(m):
     return "MOpq %s" % g_str(m[1]) if m[0] == "opq" else "MTy (%s)" % g_ty(m)
 
 
+SKIP_TERM = "GroupCase (@nil (str * ty)) VNone (Accepted VNone)"   # a case the harness could not build: judged trivially fine
+
+
 def term(case, obs):
+    if "skip" in obs:
+        return SKIP_TERM
     if case["kind"] == "x":
         orc = g_list([g_pair(g_str(s), g_lres(o)) for s, o in obs["oracle"].items()], "(str * lres)")
         tbl = g_list(["(%s, %s, %s)" % (g_str(n), g_val(b), ("AErr ErrValue" if a[1] == "value" else "AErr ErrType") if a[0] == "err" else "AOk (%s)" % g_val(a))
@@ -911,11 +939,11 @@ def term(case, obs):
         return "GroupCase %s (%s) (%s)" % (fs, g_val(case["val"]), g_obs(obs["obs"]))
     orc = g_list([g_pair(g_str(s), g_lres(o)) for s, o in obs["oracle"].items()], "(str * lres)")
     perms = g_list(["{| s_ty := %s; s_in := %s; s_acc := %s |}" % (g_ty(p), g_val(case["val"]), g_bool(a))
-                    for p, a in zip(case["perms"], obs["perms"])], "sub")
+                    for p, a in obs["perms"]], "sub")
     parts = None
-    if case["parts"] is not None:
+    if obs["parts"] is not None:
         parts = g_list(["{| s_ty := %s; s_in := %s; s_acc := %s |}" % (g_ty(pt), g_val(pv), g_bool(a))
-                        for (pt, pv), a in zip(case["parts"], obs["parts"])], "sub")
+                        for pt, pv, a in obs["parts"]], "sub")
     return ("TyCase {| c_ty := %s; c_in := %s; c_oracle := %s; c_obs := %s; c_parts := %s; c_perms := %s |}"
             % (g_ty(case["ty"]), g_val(case["val"]), orc, g_obs(obs["obs"]), g_opt(parts), perms))
 
@@ -924,6 +952,8 @@ def term(case, obs):
 # evidence helpers
 # -----------------------------------------------------------------------------------------------------------------
 def nontrivial_key(case, obs):
+    if "skip" in obs:
+        return None
     if case["kind"] == "x":
         return json.dumps(["x", case["ms"], case["dflt"], case["val"], case["ch"]])
     if case["kind"] == "group":
@@ -945,6 +975,8 @@ def ty_depth(t):
 
 
 def category(case, obs):
+    if "skip" in obs:
+        return "NOT EVALUATED (the harness could not build the hint or the input)"
     if case["kind"] == "x":
         return "%s/%s/%s input/%s" % ("Union with registered member" if any(m[0] == "opq" for m in case["ms"]) else "plain hint",
                                       "default" if case["dflt"] is not None else "no default",
@@ -1010,6 +1042,8 @@ def show_member(m):
 
 
 def describe(case, obs):
+    if "skip" in obs:
+        return {"not evaluated": obs["skip"], "case": json.dumps(case)[:300]}
     if case["kind"] == "x":
         ms = case["ms"]
         hint = show_member(ms[0]) if len(ms) == 1 else "Union[%s]" % ", ".join(show_member(m) for m in ms)
@@ -1030,12 +1064,11 @@ def describe(case, obs):
                 "call": "parse_object({'g': %s})" % show_val(case["val"]), "observed": show_obs(obs["obs"])}
     call = ("parse_args(['--k=' + %r])" % case["val"][1]) if case["ch"] == "argv" else "parse_object({'k': %s})" % show_val(case["val"])
     d = {"type_hint": show_ty(case["ty"]), "call": call, "observed": show_obs(obs["obs"])}
-    if case["perms"]:
-        d["same input, Union members permuted"] = ["%s: %s" % (show_ty(p), "accepted" if a else "rejected")
-                                                  for p, a in zip(case["perms"], obs["perms"])]
-    if case["parts"]:
+    if obs["perms"]:
+        d["same input, Union members permuted"] = ["%s: %s" % (show_ty(p), "accepted" if a else "rejected") for p, a in obs["perms"]]
+    if obs["parts"]:
         d["parts (member or item type, input, accepted stand-alone)"] = ["%s <- %s: %s" % (show_ty(pt), show_val(pv), "accepted" if a else "rejected")
-                                                                         for (pt, pv), a in zip(case["parts"], obs["parts"])]
+                                                                         for pt, pv, a in obs["parts"]]
     return d
 
 
